@@ -50,7 +50,9 @@ def run(an: Analysis, rep):
     rep.rule("R14.3", "nested code constants are decoded by CodeData.from_code; reference walk recurses over co_consts", 2)
     from rules.common import purity
     rep.run(purity, an, rep, "R14.P", ["iter", "all_code_data", "from_code"])
-    from rules.common import ordering_rule
+    from rules.common import SharedRules, ordering_rule
+    from rules import c08
+    rep.run(c08.r084, an, SharedRules(rep, "R14.K", "equality of nested code objects (which the once-only set of __iter__ uses) tells apart what CPython tells apart (shared with C08's R08.4): otherwise a distinct code object is swallowed as 'already seen'"), rule="R14.K")
     rep.run(ordering_rule, an, rep, "R14.5", ["iter", "all_code_data"])
     tg = an.tg
     ci = an.prog.cls(ROOT)
